@@ -93,6 +93,45 @@ def titleCount (s : Airplanes P D) : Nat := s.length
 
 end
 
+/-! ## the Coverage tab: heat-map cells and their brightness (`coverage.rs`)
+
+A cell is a position rounded to 0.01° (the rounding is the caller's: `key`), a `u32` counter and the aircraft last seen
+there. The Rust arithmetic is written out: `u32` operations panic on overflow (`overflow-checks = true` in every profile)
+unless they are the saturating ones. -/
+
+/-- `u32::MAX` (a notation, so that the arithmetic tactics see the literal) -/
+notation "u32Max" => (4294967295 : Nat)
+
+structure Cell where
+  key : Int × Int            -- (round(lat·100), round(lon·100))
+  seen : Nat
+  icao : Nat
+  deriving Repr, DecidableEq
+
+/-- `populate_coverage` for one `(aircraft, position)` of `all_position()`: first cell with the same key wins -/
+def coverOne (cells : List Cell) (key : Int × Int) (icao : Nat) : List Cell :=
+  match cells with
+  | [] => [{ key := key, seen := 0, icao := icao }]
+  | c :: cs =>
+    if c.key = key ∧ icao ≠ c.icao then { c with seen := min (c.seen + 1) u32Max, icao := icao } :: cs     -- `saturating_add(1)`
+    else if c.key = key then c :: cs
+    else c :: coverOne cs key icao
+
+/-- one pass of the main loop over all aircraft with a position -/
+def coverPass (cells : List Cell) (ps : List ((Int × Int) × Nat)) : List Cell :=
+  ps.foldl (fun cs p => coverOne cs p.1 p.2) cells
+
+/-- the brightness of a cell as `build_tab_coverage` computes it today: `saturating_mul(50).saturating_add(100)`, capped at 255 -/
+def cellColour (seen : Nat) : Res Nat :=
+  let n := min (min (seen * 50) u32Max + 100) u32Max
+  .ok (if n > 255 then 255 else n)
+
+/-- the same before the repair (`100 + seen * 50` in checked `u32` arithmetic) -/
+def cellColourOld (seen : Nat) : Res Nat :=
+  if seen * 50 > u32Max then .panic "coverage.rs: attempt to multiply with overflow"
+  else if 100 + seen * 50 > u32Max then .panic "coverage.rs: attempt to add with overflow"
+  else .ok (if 100 + seen * 50 > 255 then 255 else 100 + seen * 50)
+
 /-! ## the map projection (`Settings::to_xy`), over any number type -/
 
 structure Arith (α : Type) where
